@@ -67,11 +67,98 @@ def hdr(lt: int, delim: bool, ns: bool, gen: bool, star: bool, name: int, a: int
         ok = ok and ro["version"] == (2 if ns else 1) and po.params.version == ro["version"]
         ok = ok and po.params.delimited == bool(delim)
         ok = ok and po.params.namespace_declarations == bool(ns)
+        # the reader's three tables are sized from the matching header fields (internal attributes: skipped if renamed)
+        try:
+            from pyjelly.parse.decode import Decoder
+            from pyjelly.integrations.generic.parse import GenericTriplesAdapter
+            d = Decoder(adapter=GenericTriplesAdapter(po))
+            ok = ok and d.names.lookup_size == nm and d.prefixes.lookup_size == pf and d.datatypes.lookup_size == dt
+        except AttributeError:
+            pass
         if P.get("twin"):
             ok = False
     except Exception:  # noqa: BLE001
         ok = False
     return fin(M, ok, lt=lt, delim=delim, ns=ns, gen=gen, star=star, name=name, a=a, b=b, c=c, ver=ver)
+
+
+BIG = [4097, 5000, 70000]
+
+
+def hdr_big(which: int, size: int) -> bool:
+    """
+    pre: 0 <= which < 3 and 0 <= size < 3
+    post: _
+    """
+    # a writer configured with a table larger than the reader-side maximum: the header must still carry exactly the
+    # configured size (so that readers refuse the stream), and pyjelly's own parser must refuse it
+    phys, integ = P["phys"], P["integ"]
+    try:
+        sz = alpha.pick(size, BIG)
+        w = alpha.pick(which, [0, 1, 2])
+        sizes = [8, 8, 8]
+        sizes[w] = sz
+        opts = pj.make_options(phys, names=sizes[0], prefixes=sizes[1], datatypes=sizes[2], generalized=integ == "generic", rdf_star=integ == "generic")
+        if integ == "generic":
+            data = pj.gen_serialize([ITEM[phys]], phys, opts, entry="stream_frames_sink")
+        else:
+            data = pj.rdf_serialize([ITEM[phys]], phys, opts, entry="graph_serialize")
+        with notrace():
+            frames = wire.split_delimited(bytes(data))
+            rows, _ = wire.dec_frame(frames[0])
+            ro = rows[0][1]
+        ok = rows[0][0] == "options" and [ro["max_name_table_size"], ro["max_prefix_table_size"], ro["max_datatype_table_size"]] == sizes
+        try:
+            pj.gen_parse(data) if integ == "generic" else pj.rdf_parse(data)
+            ok = False
+        except Exception:  # noqa: BLE001
+            pass
+        if P.get("twin"):
+            ok = False
+    except Exception:  # noqa: BLE001
+        ok = False
+    return fin(M, ok, which=which, size=size)
+
+
+def hdr_reuse(lt1: int, lt2: int, second_phys: int) -> bool:
+    """
+    pre: 0 <= lt1 < 8 and 0 <= lt2 < 8 and 1 <= second_phys <= 3
+    post: _
+    """
+    # ONE SerializerOptions object (no explicit flow) used for two streams, then a dataclasses.replace() copy with another
+    # logical type for a third: every header must declare what THAT stream was configured with
+    import dataclasses
+    integ = P["integ"]
+    try:
+        l1, l2 = alpha.pick(lt1, LOGICAL), alpha.pick(lt2, LOGICAL)
+        p2 = alpha.pick(second_phys - 1, [1, 2, 3])
+        opts = pj.make_options(1, logical=l1, generalized=integ == "generic", rdf_star=integ == "generic")
+        ok = True
+
+        def header_of(phys, o):
+            if integ == "generic":
+                data = pj.gen_serialize([ITEM[phys]], phys, o, entry="stream_frames_sink")
+            else:
+                data = pj.rdf_serialize([ITEM[phys]], phys, o, entry="graph_serialize")
+            with notrace():
+                return R.decode(bytes(data))[1]
+
+        def expect(phys, o, lt):
+            try:
+                h = header_of(phys, o)
+            except Exception:  # noqa: BLE001
+                return not R.types_compatible(phys, lt)     # refused: must be exactly a forbidden pair
+            want_lt = lt if lt else ((1 if phys == 1 else 2))
+            return R.types_compatible(phys, lt) and h["physical_type"] == phys and h["logical_type"] == want_lt
+
+        ok = ok and expect(1, opts, l1)
+        ok = ok and expect(p2, opts, l1)                      # same object again, possibly another stream class
+        ok = ok and expect(p2, dataclasses.replace(opts, logical_type=l2), l2)
+        if P.get("twin"):
+            ok = False
+    except Exception:  # noqa: BLE001
+        ok = False
+    return fin(M, ok, lt1=lt1, lt2=lt2, second_phys=second_phys)
 
 
 def matrix(phys: int, lt: int) -> bool:
